@@ -27,7 +27,7 @@ META = None           # the spec's tables (atoms, nodes, units, functions), set 
 OPTS = {"open_tags": []}     # tags of the findings that are still open: they switch the machine's deviations on
 
 NUM_CFGS = [1, 2, 3, 4, 5, 6]
-LOG_CFGS = [1, 2, 3, 4, 5, 6, 7, 8, 9]
+LOG_CFGS = [1, 2, 3, 4, 5, 6, 7, 8, 9, 10]
 TMPL_CFGS = [1, 2]
 TMPL_DEEP_CFGS = [3, 4]      # whole-segment templates: several references to one node
 
@@ -86,32 +86,68 @@ class Arith(Exception):
 _FN = {"exp": math.exp, "ln": math.log, "log10": math.log10, "sin": math.sin, "cos": math.cos, "tan": math.tan}
 
 
-def ev_term(t, fns):
-    """Evaluate a term of the obligation language emitted by TLC (DESIGN 4.2)."""
+U = 4.5e-16          # a few units in the last place per rounded operation
+
+
+def ev_term2(t, fns):
+    """Evaluate a term of the obligation language emitted by TLC (DESIGN 4.2) -> (value, absolute error bound).
+    The bound is a first-order forward error analysis (every leaf and operation rounded once, the code under
+    test may associate differently): it tells a well-conditioned expectation from one that floating point
+    cannot deliver (tan next to a pole, ln next to 1, a cancellation feeding a non-linear function ...)."""
     op = t["op"]
     try:
         if op == "q":
-            return float(Fraction(t["n"], t["d"]) * Fraction(10) ** t["e"])
+            v = float(Fraction(t["n"], t["d"]) * Fraction(10) ** t["e"])
+            return v, U * abs(v)
         if op.startswith("tab:"):
-            return table_unit(op[4:])
-        a = [ev_term(x, fns) for x in t["a"]]
+            v = table_unit(op[4:])
+            return v, U * abs(v)
+        ar = [ev_term2(x, fns) for x in t["a"]]
+        a, ea = ar[0]
+        b, eb = ar[1] if len(ar) > 1 else (0.0, 0.0)
         if op in ("add", "sub"):
-            z = a[0] + a[1] if op == "add" else a[0] - a[1]
+            z = a + b if op == "add" else a - b
             # a difference at rounding level is a cancellation: exactly zero in the spec's arithmetic
-            return 0.0 if abs(z) <= 1e-13 * max(abs(a[0]), abs(a[1])) else z
-        if op == "mul": return a[0] * a[1]
-        if op == "div": return a[0] / a[1]
-        if op == "neg": return -a[0]
+            if abs(z) <= 1e-13 * max(abs(a), abs(b)):
+                return 0.0, ea + eb
+            return z, ea + eb + U * abs(z)
+        if op == "mul":
+            z = a * b
+            return z, abs(a) * eb + abs(b) * ea + U * abs(z)
+        if op == "div":
+            if abs(b) <= 16 * eb:
+                raise Arith("division by a subterm that is zero within rounding")
+            z = a / b
+            return z, ea / abs(b) + abs(z) * eb / abs(b) + U * abs(z)
+        if op == "neg":
+            return -a, ea
         if op == "pow":
-            z = a[0] ** a[1]
+            z = a ** b
             if isinstance(z, complex):
                 raise Arith("complex")
-            return z
+            d = abs(b * a ** (b - 1)) * ea if a != 0 else ea
+            if eb and a > 0:
+                d += abs(z * math.log(a)) * eb
+            return z, d + U * abs(z)
         if op == "f1":
-            return _FN[fns[t["n"] - 1]["fn"]](a[0])
+            fn = fns[t["n"] - 1]["fn"]
+            z = _FN[fn](a)
+            d = {"exp": abs(z), "ln": 1 / abs(a) if a else float("inf"), "log10": 1 / (abs(a) * math.log(10)) if a else float("inf"),
+                 "sin": abs(math.cos(a)), "cos": abs(math.sin(a)), "tan": 1 + z * z}[fn]
+            return z, d * ea + U * max(abs(z), ea)
     except (ZeroDivisionError, OverflowError, ValueError) as e:
         raise Arith(str(e))
     raise ValueError("unknown term " + op)
+
+
+def ev_term(t, fns):
+    """value of a term; Arith when it is not well conditioned (no verdict can be based on it)"""
+    v, err = ev_term2(t, fns)
+    if math.isnan(v) or math.isinf(v) or math.isnan(err):
+        raise Arith("not finite")
+    if v != 0 and err > 1e-11 * abs(v):
+        raise Arith("ill-conditioned: error bound %.1e on %.3e" % (err, v))
+    return v
 
 
 _TAB = {}
@@ -179,28 +215,34 @@ def atom_text(tok):
     return txt + (" " + META["units"][a["u"]] if a["u"] else "")
 
 
-def node_line(tok):
+def node_line(tok, decoy=False, assign=False):
+    """definition of a node; decoy: with the spec's decoy value; assign: the later re-assignment `name = value`"""
     a = META["atoms"][tok]
+    head = a["name"] if assign else None
     if a["kind"] == "bnode":
-        return f"{a['name']} bool = {'true' if a['bv'] else 'false'}"
+        val = a["bv"] != decoy
+        return f"{head or a['name'] + ' bool'} = {'true' if val else 'false'}"
     ty = "float" if a["kind"] == "fnode" else "int"
-    txt = dec_text(atom_value(a), False)
-    return f"{a['name']} {ty} = {txt}" + (" " + META["units"][a["u"]] if a["u"] else "")
+    v = atom_value(dict(a, n=META["decoy"][tok])) if decoy else atom_value(a)
+    return f"{head or a['name'] + ' ' + ty} = {dec_text(v, False)}" + (" " + META["units"][a["u"]] if a["u"] else "")
 
 
-def extra_line(x):
+def extra_line(x, decoy=False, assign=False):
+    add = x["dadd"] if decoy else 0
+    unit = " " + x["u"] if x["u"] else ""
     if x["ty"] == "str":
-        return f"{x['name']} str = '{x['str']}'"
+        return f"{x['name']}{'' if assign else ' str'} = '{x['dstr'] if decoy else x['str']}'"
     if x["ty"] == "float2":
-        vals = ",".join("[" + ",".join(dec_text(frac(q)) for q in row) + "]" for row in x["arr"])
-        return f"{x['name']} float[{len(x['arr'])},{len(x['arr'][0])}] = [{vals}]" + (" " + x["u"] if x["u"] else "")
-    vals = ",".join(dec_text(frac(q)) for q in x["arr"])
-    return f"{x['name']} float[{len(x['arr'])}] = [{vals}]" + (" " + x["u"] if x["u"] else "")
+        vals = ",".join("[" + ",".join(dec_text(frac(q) + add) for q in row) + "]" for row in x["arr"])
+        return f"{x['name']}{'' if assign else ' float[%d,%d]' % (len(x['arr']), len(x['arr'][0]))} = [{vals}]" + unit
+    vals = ",".join(dec_text(frac(q) + add) for q in x["arr"])
+    return f"{x['name']}{'' if assign else ' float[%d]' % len(x['arr'])} = [{vals}]" + unit
 
 
-def env_text(kind, only=None, extras=True):
-    """DIP text defining the nodes (and, for kind 'custom', the custom unit) the spec's atoms refer to."""
-    lines = []
+def env_text(kind, only=None, extras=True, modified=False):
+    """DIP text defining the nodes (and, for kind 'custom', the custom unit) the spec's atoms refer to.
+    modified: every node is first defined with the spec's decoy value and re-assigned afterwards."""
+    lines, later = [], []
     if only is not None:
         lines.append("zfill int = 1")      # a reference into a text without any node is C17's subject
     if kind == "custom":
@@ -209,12 +251,16 @@ def env_text(kind, only=None, extras=True):
     toks = sorted(META["nodes"]) + (sorted(META["cnodes"]) if kind == "custom" else [])
     for t in toks:
         if only is None or META["atoms"][t]["name"] in only:
-            lines.append(node_line(t))
+            lines.append(node_line(t, decoy=modified))
+            if modified:
+                later.append(node_line(t, assign=True))
     if extras:
         for x in META["extra"]:
             if only is None or x["name"] in only:
-                lines.append(extra_line(x))
-    return "\n".join(lines) + "\n"
+                lines.append(extra_line(x, decoy=modified))
+                if modified:
+                    later.append(extra_line(x, assign=True))
+    return "\n".join(lines + later) + "\n"
 
 
 def refs_of(tokens):
@@ -238,12 +284,12 @@ def parse_text(text):
         return dip.parse()
 
 
-def get_env(kind, private=False):
+def get_env(kind, private=False, modified=False):
     """the environment parsed from the spec's node list; a private copy where the solver mutates nodes
     (comparisons convert their left operand in place)"""
-    key = (os.getpid(), kind)
+    key = (os.getpid(), kind, modified)
     if key not in _ENVS:
-        _ENVS[key] = parse_text(env_text(kind))
+        _ENVS[key] = parse_text(env_text(kind, modified=modified))
     return copy.deepcopy(_ENVS[key]) if private else _ENVS[key]
 
 
@@ -305,10 +351,13 @@ def render_tmpl(tokens):
 
 # ------------------------------------------------------------------ observation of the real code
 
+MOD = [False]        # the record being replayed uses the environment with re-assigned nodes
+
+
 def obs_num(kind, text, unit):
     """NumericalSolver(env).solve(text, unit) -> ('val', float) | ('err', name)"""
     from scinumtools.dip.solvers import NumericalSolver
-    env = get_env(kind)
+    env = get_env(kind, modified=MOD[0])
     try:
         with NumericalSolver(env) as p:
             r = p.solve(text, unit)
@@ -333,7 +382,7 @@ def obs_num_base(kind, text, mdim):
 
 def obs_log(kind, text):
     from scinumtools.dip.solvers import LogicalSolver
-    env = get_env(kind, private=True)
+    env = get_env(kind, private=True, modified=MOD[0])
     try:
         with LogicalSolver(env) as p:
             r = p.solve(text)
@@ -349,9 +398,9 @@ def obs_log(kind, text):
 
 def obs_tmpl(text):
     from scinumtools.dip.solvers import TemplateSolver
-    key = (os.getpid(), "tmpl")
+    key = (os.getpid(), "tmpl", MOD[0])
     if key not in _ENVS:                         # the constructor looks up its caller with inspect.stack()
-        _ENVS[key] = TemplateSolver(get_env("plain"))
+        _ENVS[key] = TemplateSolver(get_env("plain", modified=MOD[0]))
     try:
         with _ENVS[key] as p:
             return ("val", p.solve(text))
@@ -473,7 +522,7 @@ def replay_num(rec):
             if exp[0] == "val" and exp[1] == 0:
                 res.append(F("unspecified"))       # a zero value in a definition is C14's subject (falsy values)
             elif exp[0] in ("val", "raise"):
-                envt = env_text(kind, only=refs_of(toks), extras=False)
+                envt = env_text(kind, only=refs_of(toks), extras=False, modified=MOD[0])
                 isint = exp[0] == "val" and float(exp[1]).is_integer() and rq["out"]["k"] == "q" and abs(exp[1]) < 1e9
                 ty = "int" if (isint and rec["_seed"] % 2) else "float"
                 q = '"' if rec["_seed"] % 3 else "'"
@@ -546,7 +595,7 @@ def replay_log(rec):
                              scenario={"expr": txt, "env": kind}, expected=exp, observed=list(o),
                              clause="logical expression: truth value under the documented priorities, unit-aware comparisons, 1e-6 tolerance"))
         if rec["_embed"]:
-            envt = env_text(kind, only=refs_of(toks), extras=False)
+            envt = env_text(kind, only=refs_of(toks), extras=False, modified=MOD[0])
             which = rec["_seed"] % 2
             if which == 0:
                 body = envt + f'x bool = ("{text}")\n'
@@ -589,7 +638,7 @@ def replay_tmpl(rec):
         if rec["_embed"] and '"' not in text:
             names = {sg["ref"] for sg in rec["ideal"] + rec["mach"] if sg["k"] == "ref"} | \
                     {n for n in ("a", "b", "s", "v", "mm") if "{?" + n + "}" in text}
-            body = env_text("plain", only=names) + f'x str = ("{text}")\n'
+            body = env_text("plain", only=names, modified=MOD[0]) + f'x str = ("{text}")\n'
             checks.append(("embedded", obs_parse(body, "x"), {"text": body}))
         for how, ob, scen in checks:
             if exp[0] == "raise":
@@ -613,6 +662,9 @@ def replay_tmpl(rec):
 
 
 def replay_record(rec):
+    MOD[0] = bool(rec.get("_mod"))
+    if MOD[0]:
+        rec = dict(rec, tags=list(rec["tags"]) + ["modified_nodes"])
     try:
         if rec["mode"] == "num":
             return replay_num(rec)
@@ -721,7 +773,7 @@ CFG_ATOMS = {
     "log": {1: ["a", "300cm", "3m+5", "d", "!z"], 2: ["a", "3m+12", ".003km-20", "q", "true"],
             3: ["b", "200cm", "250cm", "f", "d"], 4: ["j", "2", "2.0m", "b", "false"], 5: ["f", "g", "h", "!a", "q"],
             6: ["e", "8m", "1.5len", "a", "d"], 7: ["a", "3", "3s", "3m-9", "3m+10"], 8: ["3m", "300cm", "4m", "c", "true"],
-            9: ["n", "l", "b", "1.5km", "d"]},
+            9: ["n", "l", "b", "1.5km", "d"], 10: ["r", "298.15K", "77degF", "300K", "d"]},
 }
 
 
@@ -734,8 +786,8 @@ def plan(t, sd=0):
                 ("num", 7, True, [deep], 99),
                 ("log", 3, False, [1, 3], 3), ("log", 5, True, LOG_CFGS, 99),
                 ("tmpl", 5, False, TMPL_CFGS, 4), ("tmpl", 9, True, TMPL_DEEP_CFGS, 99)], {"num": 600, "log": 600}
-    deep = [1 + sd % 9, 1 + (sd + 3) % 9]
-    return [("num", 5, False, [1, 2, 3, 4], 4), ("num", 7, True, NUM_CFGS, 99),
+    deep = [1 + sd % 10]                    # one logical atom set goes to 7 tokens, by seed
+    return [("num", 5, False, [1, 2, 3, 4], 3), ("num", 7, True, NUM_CFGS, 99),
             ("log", 4, False, LOG_CFGS, 3), ("log", 6, True, [c for c in LOG_CFGS if c not in deep], 99),
             ("log", 7, True, deep, 99),
             ("tmpl", 6, False, TMPL_CFGS, 5), ("tmpl", 11, True, TMPL_DEEP_CFGS, 99)], {"num": 6000, "log": 6000}
@@ -832,6 +884,7 @@ def run(replay=None):
     for i, x in enumerate(recs):
         x["_seed"] = sd * 7919 + i
         x["_embed"] = (i + sd) % every == 0
+        x["_mod"] = (i // 2 + sd) % 2 == 1         # every other pair of records: nodes re-assigned after definition
     res = C.pmap(replay_record, recs)
     classes = {}
     features = {}
